@@ -171,8 +171,9 @@ class FnSpec:
 class KBufSpec:
     """Properties decided on the buffer machine: Props/<id>.v + K-buf sessions + oracles."""
 
-    def __init__(self, profiles, tags, quick=(64, 40), thorough=(2500, 50), findings=(), note=""):
+    def __init__(self, profiles, tags, quick=(64, 40), thorough=(2500, 50), findings=(), note="", grid=False):
         self.profiles, self.tags, self.quick, self.thorough, self.findings, self.note = profiles, tags, quick, thorough, findings, note
+        self.grid = grid
 
     def _run(self, profile, seed, n, budget):
         import kbuf
@@ -202,9 +203,37 @@ class KBufSpec:
                 "model_mismatches": mism, "oracle_failures": fails, "samples": [{"class": out["meta"][0]["class"], "steps": out["logs"][0][3:8]}] if out["logs"] else [],
                 "stats": out["stats"], "classes": out["classes"], "wall_s": round(time.time() - t, 1)}
 
+    def _grid(self, seed, tier):
+        import kbuf
+        t = time.time()
+        out = kbuf.run_grid(seed, tier)
+        bad, diags = kbuf.check_against_model(out)
+        mism = []
+        for b, txt in diags:
+            m = re.search(r"Some \((\d+), (\d+)\)", txt)
+            st = int(m.group(1)) if m else None
+            mism.append({"correspondence": "K-buf grid (Corr/KBuf.v check_bcase)", "meta": out["meta"][b], "first_differing_step": st,
+                         "reason_code": int(m.group(2)) if m else None, "steps": out["logs"][b][: (st + 1) if st is not None else 5][-6:]})
+        fails = []
+        for f in out["oracle"]:
+            if any(f["oracle"].startswith(t_) for t_ in self.tags) or f["oracle"] == "harness":
+                g = dict(f)
+                g.update(grid=True, steps=out["logs"][f["session"]][: f["step"] + 1][-10:])
+                fails.append(g)
+        return {"name": "K-buf/grid", "evaluations": sum(len(l) for l in out["logs"]), "distinct_nontrivial": len({m["script"] + m["class"] for m in out["meta"]}),
+                "traces": len(out["cases"]), "rule": "small-scope enumeration: 6 context shapes (incl. nested capacities) x per-file (modified/read/untouched) x "
+                "(changed outside before/after/never), 2 files, both strategies; exhaustive over the 81 assignments in the thorough tier",
+                "model_mismatches": mism, "oracle_failures": fails, "samples": [{"script": out["meta"][0]["script"], "steps": out["logs"][0][4:9]}],
+                "stats": {}, "classes": out["classes"], "wall_s": round(time.time() - t, 1), "exhaustive": tier != "quick"}
+
     def run(self, prop, tier, seed):
         n, budget = self.quick if tier == "quick" else self.thorough
-        return [self._run(pf, seed + i, max(8, n // len(self.profiles)), budget) for i, pf in enumerate(self.profiles)]
+        runs = [self._run(pf, seed + i, max(8, n // len(self.profiles)), budget) for i, pf in enumerate(self.profiles)]
+        if self.grid:
+            runs.append(self._grid(seed, tier))
+        return runs
+
+    grid = False
 
     def search(self, prop, tier, seed):
         fails, ev = [], 0
@@ -340,8 +369,8 @@ CANDIDATES = {
     "C17": K1Spec("C17", ["C17"], extra=[lambda prop, tier, seed: KBufSpec(["C17"], ["C17"])._run("C17", seed, 32 if tier == "quick" else 1500, 40)]),
     "C05": KBufSpec(["C05", "C05cap"], ["C05", "C15-zero"], findings=("D19",)),
     "C06": KBufSpec(["C06", "C06b"], ["C05", "C06"], findings=("D19",)),
-    "C07": KBufSpec(["C07", "C07cap"], ["C07", "C15-zero", "C15-capacity"]),
-    "C15": KBufSpec(["C15", "C05cap"], ["C15"]),
+    "C07": KBufSpec(["C07", "C07cap"], ["C07", "C15-zero", "C15-capacity"], grid=True),
+    "C15": KBufSpec(["C15", "C05cap"], ["C15"], grid=True),
     "C16": K1Spec("MIX", ["C16"], extra=[lambda prop, tier, seed: __import__("k_extra").run_c16(prop, tier, seed)],
                   note="aliasing cannot be expressed inside the functional model; the aliasing oracle mutates every container reachable from arguments and results"),
     "C18": K1Spec("MIX", ["C18"], extra=[lambda prop, tier, seed: __import__("k_extra").run_c18(prop, tier, seed)]),
@@ -356,7 +385,8 @@ CANDIDATES = {
     "C13": ConcSpec([k2_run, k3_runner("c13")], trust=CONC_TRUST, assume=CONC_ASSUME,
                     expl="Theorems in coq/Props/C13.v: buffered mutators hold the class-wide buffer lock for their whole duration (computed), hence every schedule "
                          "is serial (C09's theorem with one lock); K3 explores real schedules inside buffer_backend(capacity) incl. capacities forcing flushes."),
-    "C14": ConcSpec([k3_runner("c14")], findings=("D18",), trust=CONC_TRUST,
+    "C14": ConcSpec([k3_runner("c14"), lambda prop, tier, seed: dict(__import__("k4").run(tier, seed, shape_only=True), name="K4/shape (a reader of another object sees a complete file: temp file written and closed, then renamed)")],
+                    findings=("D18",), trust=CONC_TRUST,
                     assume=CONC_ASSUME + ["PARTIAL: the same-object case (and two objects sharing one container in the shared-memory strategy) is known finding D18"],
                     expl="coq/Props/C14.v: full statement kept visible and refuted (D18); proved part: readers on objects no writer uses. "
                          "K3 explores reader/writer schedules; the D18 probe re-confirms the finding on every run."),
